@@ -33,9 +33,11 @@ def run(ctx):
         scns = head + rest[:max(0, 2500 - len(head))]
     for i, s in enumerate(scns):
         s["ro"] = i % 3
+    if ctx.replay_scn:
+        scns = [ctx.replay_scn]
     ctx.extra["scenarios_emitted"] = len(scns)
     # random scenarios beyond the model's bounds (1-5 writable, want 1-3, retries 0-3, all 11 kinds)
-    nrand = 3000 if ctx.thorough else 400
+    nrand = 0 if ctx.replay_scn else (3000 if ctx.thorough else 400)
     base = 10 ** 6
     for i in range(nrand):
         scns.append({"id": base + i, "mode": "random", "rseed": ctx.seed * 1000003 + i,
